@@ -21,7 +21,7 @@ Lemma publish_ok : forall g d n c,
     /\ (forall x, refd g' x = refd g x || existsb (path_eqb x) (refs c)).
 Proof.
   intros g d n c Ht Hr Hq Hb.
-  unfold publish_meta. cbn [tmp_of dir_of checks].
+  unfold publish_meta, gen_write_file. cbn [tmp_of dir_of checks].
   cbn [check]. rewrite Ht. cbn [checks check tmps]. rewrite upd_t_same. cbn [checks check tmps app].
   rewrite upd_t_same. cbn [checks check tmps st refd]. rewrite upd_t_same.
   assert (Hr' : forall g1, st g1 = st g -> forallb (ref_ok g1) (refs c) = true).
